@@ -16,7 +16,7 @@ Oracle: CPython executing the identical source: value (type + repr), exception t
 by user code (caught and returned inside the templates), and the ordered side-effect log.
 """
 from vlib import e2, farm
-from props._g6_common import ConfirmCtx
+from props._g6_common import ConfirmCtx, run_diff, storm_note
 
 LEVEL = 'exploration'
 ENGINE = 'E2 diffexplore'
@@ -491,7 +491,8 @@ def run(ctx):
     mods = [e2.Mod('c01_%d' % (i // PER_MODULE), PRELUDE, parts[i:i + PER_MODULE], inputs, ext='.py', use_log=True)
             for i in range(0, len(parts), PER_MODULE)]
     cc = ConfirmCtx(ctx, _keyfn)
-    st = e2.run_diff(cc, mods, keyfn=_keyfn, reach=REACH, timeout=1800, on_build_failure='reject')
+    st = run_diff(cc, mods, keyfn=_keyfn, reach=REACH, timeout=1800, on_build_failure='reject',
+                  stormkey=lambda tag, inp, exp, got: 'C01|crash|' + tag.split('@')[0].split('(')[0])
     justified, unjustified = _check_rejections(ctx, st['rejected'], dict(srcs))
     cov = {
         'evaluations': st['evaluations'], 'distinct_nontrivial': st['pairs'],
@@ -509,6 +510,7 @@ def run(ctx):
                                                             srcs[-min(100, len(srcs))])],
         'exhaustive': True,
     }
+    storm_note(cov, st)
     return cov, ['expression nesting deeper than 2, arity > 2, values outside the 9-value set are not covered',
                  'interpreter-generated exception messages are not compared']
 
